@@ -291,7 +291,9 @@ MC = {
              ["NeverStuck", "FlagsMatchJobs"]),
             ("liveness", {"TagNames": '{"tag/a"}', "ConvNames": "{}", "MaxCalls": 2, "MaxViews": 0, "Menu": '"files"', "Invalid": "FALSE"}, []),
             # tags with sub-queries (invalidated as a whole): the as-found model re-invalidated them at every TagDone and never settled
-            ("liveness-subs", {"TagNames": '{"tag/a", "tag/b"}', "ConvNames": "{}", "MaxCalls": 2, "MaxViews": 0, "Menu": '"subs"', "Invalid": "FALSE"}, [])],
+            ("liveness-subs", {"TagNames": '{"tag/a", "tag/b"}', "ConvNames": "{}", "MaxCalls": 2, "MaxViews": 0, "Menu": '"subs"', "Invalid": "FALSE"}, []),
+            # a definition whose evaluation always fails (payload filter on a converter that does not exist) is decided as empty
+            ("liveness-errs", {"TagNames": '{"tag/a"}', "ConvNames": "{}", "MaxCalls": 2, "MaxViews": 0, "Menu": '"errs"', "Invalid": "FALSE"}, [])],
     "C10": [("files", {"TagNames": '{"tag/a"}', "ConvNames": "{}", "MaxCalls": 3, "MaxViews": 2, "Menu": '"files"', "Invalid": "FALSE"},
              ["ViewComplete", "OneIdPerConn"])],
     "C11": [("calls", {"TagNames": '{"tag/a", "mark/m"}', "ConvNames": "{}", "MaxCalls": 3, "MaxViews": 0, "Menu": '"tags"', "Invalid": "TRUE"},
@@ -403,7 +405,8 @@ GEN2 = {   # additional generator configurations (same MaxLen)
     "C06": [{"TagNames": '{"tag/a", "tag/b", "mark/m"}', "ConvNames": "{}", "MaxCalls": 7, "MaxViews": 1, "Menu": '"subs"', "Invalid": "FALSE"},
             {"TagNames": '{"tag/a", "tag/b", "mark/m"}', "ConvNames": '{"cv"}', "MaxCalls": 9, "MaxViews": 1, "Menu": '"conv"', "Invalid": "FALSE", "Extra": '{"convdir"}'}],
     "C09": [{"TagNames": '{"tag/a", "mark/m"}', "ConvNames": '{"cv"}', "MaxCalls": 8, "MaxViews": 1, "Menu": '"conv"', "Invalid": "FALSE"},
-            {"TagNames": '{"tag/a", "tag/b", "mark/m"}', "ConvNames": "{}", "MaxCalls": 7, "MaxViews": 1, "Menu": '"subs"', "Invalid": "FALSE"}],
+            {"TagNames": '{"tag/a", "tag/b", "mark/m"}', "ConvNames": "{}", "MaxCalls": 7, "MaxViews": 1, "Menu": '"subs"', "Invalid": "FALSE"},
+            {"TagNames": '{"tag/a", "tag/b"}', "ConvNames": "{}", "MaxCalls": 7, "MaxViews": 1, "Menu": '"errs"', "Invalid": "FALSE"}],
     "C13": [{"TagNames": '{"tag/a", "mark/m"}', "ConvNames": '{"cv"}', "MaxCalls": 8, "MaxViews": 2, "Menu": '"conv"', "Invalid": "FALSE"}],
 }
 
@@ -419,7 +422,7 @@ def run(ctx):
     cfgs = [consts] + GEN2.get(pid, [])
     all_convs = set()
     for ci, c in enumerate(cfgs):
-        ns = max(2, nseeds // len(cfgs)) if ci else nseeds - (len(cfgs) - 1) * max(2, nseeds // len(cfgs)) if len(cfgs) > 1 else nseeds
+        ns = max(2, nseeds // len(cfgs)) if ci else max(2, nseeds - (len(cfgs) - 1) * max(2, nseeds // len(cfgs))) if len(cfgs) > 1 else nseeds
         convs = ["cv"] if '"cv"' in c["ConvNames"] else []
         all_convs |= set(convs)
         if nseeds:
